@@ -76,6 +76,8 @@ impl<'a> crate::analysis::forward_interprocedural_fixpoint::Context<'a> for Cont
                 var,
                 address: _expression,
             } => {
+                // The expression previously known for the loaded variable is no longer valid
+                insertable_expressions.remove(var);
                 // Expressions dependent on the assigned variable are no longer insertable
                 insertable_expressions.retain(|_input_var, input_expr| {
                     !input_expr.input_vars().into_iter().any(|x| x == var)
